@@ -340,3 +340,25 @@ def c18():
         key_of=lambda m: (m["fam"], m["what"].split()[0], str(m["got"])[:25]),
         assumptions=["TLC and the Json module", "the harness's JSON printer and typed sink", "dyadic values; only ASCII strings travel through the Json module"],
         not_modelled=["set actions on arbitrary targets (only call actions carry the trees)", "non-ASCII strings"], chunks=12, workers=4)
+
+
+def c17():
+    import library_family
+    lib = library_family.check("C17")
+    lc = lib["cov"]
+    extra = {"states": lc["states"], "transitions": lc["transitions"], "traces_validated_against_impl": lc["traces_validated_against_impl"],
+             "evaluations": lc["evaluations"], "library_histories": {k: lc[k] for k in ("traces_validated_against_impl", "configs", "divergences", "rule")},
+             "samples": lc["samples"]}
+    return simple_cases_check(
+        "C17", "GrlGrammar.tla", ["MCGrammar.cfg"], "gram-replay",
+        rule="case = token-kind document: one of three valid documents (together using every construct of the grammar) or one single mutation of it - "
+             "delete / duplicate / swap a token, replace it by or insert any of 33 token kinds (incl. illegal character, unterminated string, invalid "
+             "escape, integer beyond int64, salience beyond int32, a repeated rule name, keywords in any case) at every position; the harness prints "
+             "representative text, builds it after a good rule was loaded, and compares: acceptance = recogniser verdict; accepted => exactly the declared "
+             "rule table; syntax refusal => GruleErrorReporter with entries; refusal => no rule but complete grammatical ones taken over; afterwards the "
+             "earlier rule is instantiable, matches, fires as before, and survives store/load. Plus histories of rejected builds (GruleLibrary.tla).",
+        model_text="GrlGrammar.tla / MCGrammar.cfg: all single mutations of 3 base documents, invariant BasesValid; GruleLibrary.tla histories with rejected builds",
+        key_of=lambda m: (m["what"], m["mut"], str(m["want"])[:20]),
+        assumptions=["TLC and the Json module", "the harness's token printer (representative text per token kind)",
+                     "the recogniser is a hand transcription of antlr/grulev3.g4 at token-kind level"],
+        chunks=12, workers=8, extra_cov=extra, extra_violations=lib["violations"], extra_unrep=lib["unreproduced"])
